@@ -113,4 +113,38 @@ EXTRA = [
         (J + "registry.py", "        for model_meta in self.models:\n            generator.optimize_type(model_meta)\n        return replaces",
          "        for model_meta in self._registry.values():\n            generator.optimize_type(model_meta)\n        return replaces"),
     ]),
+    ("resolve_set_difference", "resolve() written as a set difference", [
+        (J + "dynamic_typing/string_serializable.py",
+         "        resolved: Set[T_StringSerializable] = set(types)\n        for t1, t2 in permutations(types, 2):\n            if (t1, t2) in self.replaces:\n                resolved.discard(t1)\n        return resolved\n",
+         "        return types - {t1 for t1, t2 in permutations(types, 2) if (t1, t2) in self.replaces}\n"),
+    ]),
+    ("keycheck_with_all", "mapping keys checked with all()", [
+        (J + "generator.py", "                for key in value:\n                    self._check_key(key, value)\n",
+         "                if not all(isinstance(key, str) for key in value):\n                    raise TypeError(f'non-string keys in {value}')\n"),
+    ]),
+    ("write_encoded_bytes", "the text is encoded first and written in binary mode", [
+        (J + "cli.py", "            output.encode(\"utf-8\")\n            with open(self.output_file, \"w\", encoding=\"utf-8\") as f:\n                f.write(output)\n",
+         "            data = output.encode(\"utf-8\")\n            with open(self.output_file, \"wb\") as f:\n                f.write(data)\n"),
+    ]),
+    ("overflow_converted_in_parser", "dateutil's OverflowError is converted to ValueError where it is raised", [
+        (J + "generator.py", "                except (ValueError, OverflowError):\n                    # OverflowError: dateutil raises it for huge numbers (\"Jan 99999999999\")\n                    continue\n",
+         "                except ValueError:\n                    continue\n"),
+        (J + "dynamic_typing/string_datetime.py",
+         "    d1 = dateutil.parser.parse(s, default=_check_values_date[0])\n    d2 = dateutil.parser.parse(s, default=_check_values_date[1])\n",
+         "    try:\n        d1 = dateutil.parser.parse(s, default=_check_values_date[0])\n        d2 = dateutil.parser.parse(s, default=_check_values_date[1])\n    except OverflowError as e:\n        raise ValueError(str(e))\n"),
+        (J + "dynamic_typing/string_datetime.py",
+         "    d1 = dateutil.parser.parse(s, default=_check_values_time[0])\n    d2 = dateutil.parser.parse(s, default=_check_values_time[1])\n",
+         "    try:\n        d1 = dateutil.parser.parse(s, default=_check_values_time[0])\n        d2 = dateutil.parser.parse(s, default=_check_values_time[1])\n    except OverflowError as e:\n        raise ValueError(str(e))\n"),
+    ]),
+    ("samples_listed", "generate() materialises the samples first", [
+        (J + "generator.py", "        fields_sets = [self._convert(data) for data in data_variants]", "        fields_sets = [self._convert(data) for data in list(data_variants)]"),
+    ]),
+    ("generators_helper_renamed", "the two renderer helpers are renamed", [
+        (J + "models/base.py", "    generators = _create_generators(structure, class_generator, class_generator_kwargs)\n    return _render_generators(generators)",
+         "    generators = _build_generators(structure, class_generator, class_generator_kwargs)\n    return _render_all(generators)"),
+        (J + "models/base.py", "def _create_generators(structure", "def _build_generators(structure"),
+        (J + "models/base.py", "            _create_generators(data[\"nested\"], class_generator, class_generator_kwargs)", "            _build_generators(data[\"nested\"], class_generator, class_generator_kwargs)"),
+        (J + "models/base.py", "def _render_generators(generators", "def _render_all(generators"),
+        (J + "models/base.py", "        nested_imports, nested_classes = _render_generators(nested_generators)", "        nested_imports, nested_classes = _render_all(nested_generators)"),
+    ]),
 ]
